@@ -2,6 +2,7 @@
 the correspondence samples them)."""
 import common as C
 from framework import Unit
+import mkopthm
 
 IMPORTS = 'From Gen Require Import decoders.'
 SPEC_IMPORTS = 'From ArmV Require Import Proofs.Cube Spec.DecTables.'
@@ -38,6 +39,7 @@ T32_GROUPS = [
     ('t32_parallel_signed', 'thumb_parallel_addition_and_subtraction_signed', 'dec_thumb_parallel_addition_and_subtraction_signed', 't32_pas_table', 'no_env'),
     ('t32_parallel_unsigned', 'thumb_parallel_addition_and_subtraction_unsigned', 'dec_thumb_parallel_addition_and_subtraction_unsigned', 't32_pau_table', 'no_env'),
     ('t32_misc_operations', 'thumb_miscellaneous_operations', 'dec_thumb_miscellaneous_operations', 't32_misc_table', 'no_env'),
+    ('t32_coprocessor', 'thumb_coprocessor_advanced_simd_and_floating_point_instructions', 'dec_thumb_coprocessor_advanced_simd_and_floating_point_instructions', 't32_cop_table', 'res'),
 ]
 
 
@@ -94,11 +96,15 @@ OP_IMPORTS = 'From Gen Require Import enums bits_ops shift opsyn core conc.'
 OP_SPEC_IMPORTS = 'From ArmV Require Import Spec.Pseudocode.'
 
 
+PROPS_FILES = ['C07'] + [f'C07ops{k}' for k in range(8)]
+
+
 def units():
     return [Unit('thumb16', ['C07_thumb16'], ['Proofs/Cube.v', 'Proofs/DecodeReify.v', 'Proofs/DecThumb16.v'], [], cases, IMPORTS, SPEC_IMPORTS),
             Unit('thumb32_groups', ['C07_thumb32_top', 'C07_thumb32_move_shift', 'C07_thumb32_dp_shifted_register',
                                     'C07_thumb32_dp_modified_immediate', 'C07_thumb32_plain_binary_immediate'] +
-                 ['C07_thumb32_' + s for s in ('lsm', 'dual', 'sts', 'ldw', 'dpr', 'mul', 'lmul', 'pas', 'pau', 'misc', 'ldh', 'ldb', 'bmc', 'cps', 'mctl')],
+                 ['C07_thumb32_' + s for s in ('lsm', 'dual', 'sts', 'ldw', 'dpr', 'mul', 'lmul', 'pas', 'pau', 'misc', 'ldh', 'ldb', 'bmc', 'cps', 'mctl', 'cop')],
                  ['Proofs/Cube.v', 'Proofs/DecodeReify.v', 'Proofs/DecThumb32.v'], [], t32_cases, IMPORTS,
                  SPEC_IMPORTS + '\nFrom ArmV Require Import Spec.DecTablesT32.'),
-            Unit('operands', [], [], [], operand_cases, OP_IMPORTS, OP_SPEC_IMPORTS)]
+            Unit('operands', ['C07_ops_' + c for c in mkopthm.classes(False)],
+                 ['Proofs/OpTac.v'] + [f'Proofs/OpsT{k}.v' for k in range(8)], [], operand_cases, OP_IMPORTS, OP_SPEC_IMPORTS)]
